@@ -1,11 +1,14 @@
-/* Native replay for the algorithm-lifetime rules (C01: INT-13, INT-15): the real
+/* Native replay for the algorithm-lifetime rules (C01: INT-13, INT-15, INT-14, INT-17; mode=int13|int15|int14|int17): the real
  * KSI_VerificationRule_AggregationChainInputHashAlgorithmVerification / ...AggregationChainHashAlgorithmVerification
  * are called on a real parsed signature (test/resource/tlv/ok-sig-2014-04-30.1-no-cal-hashchain.ksig, parsed without
  * verification) whose first chain gets the input-hash algorithm / aggregation algorithm `alg` and the aggregation time
  * `t` from the counterexample (public setters KSI_AggregationHashChain_set*).  The verdict is compared with
  * spec/hashalg.h + spec/vercodes.h: an algorithm that was deprecated/obsolete at time t (t is an unsigned 64-bit KSI
  * time) must give FAIL with INT-13 / INT-15, otherwise OK.  Neighbourhood: the hinted (alg, t), the deprecation date
- * -1/0/+1, 2^63-1, 2^63, 2^63+1, 2^64-1, for every algorithm id 0..11. Exit 1 = the real rule disagrees. */
+ * -1/0/+1, 2^63-1, 2^63, 2^63+1, 2^64-1, for every algorithm id 0..11. Exit 1 = the real rule disagrees.
+ * Modes int14 / int17 use the legacy sample ok-legacy-sig-2014-06.gtts.ksig (it carries an RFC3161 record): the record's
+ * aggregation time is t, and alg is the signed-attributes algorithm (int14; TST-info algorithm SHA-256) resp. the algorithm
+ * of the first chain's input hash (int17). */
 #include "replay/replay_common.h"
 #include "spec/hashalg.h"
 #include "spec/vercodes.h"
@@ -18,7 +21,7 @@
 #include "impl/hashchain_impl.h"
 
 static KSI_CTX *ctx; static KSI_Signature *sig; static KSI_AggregationHashChain *first;
-static int mode15;
+static int mode15, mode14, mode17;
 
 static long long time_ll(unsigned long long t) { return t > 0x7fffffffffffffffULL ? 0x7fffffffffffffffLL : (long long)t; }
 
@@ -26,10 +29,15 @@ static int check(int alg, unsigned long long t) {
 	KSI_VerificationContext info; KSI_RuleVerificationResult r; KSI_Integer *tm = NULL, *al = NULL; KSI_DataHash *h = NULL;
 	unsigned char dig[64]; int res, st, bad; spec_verdict v;
 	memset(dig, 0x5a, sizeof(dig));
-	if (!mode15 && spec_hashalg_len(alg) == 0) return 0;                 /* an imprint needs a known digest length */
+	if (!mode15 && !mode14 && spec_hashalg_len(alg) == 0) return 0;       /* an imprint needs a known digest length */
 	KSI_Integer_new(ctx, t, &tm);
-	KSI_AggregationHashChain_setAggregationTime(first, tm);              /* frees nothing: ownership bookkeeping is not the point here */
-	if (mode15) { KSI_Integer_new(ctx, (KSI_uint64_t)alg, &al); KSI_AggregationHashChain_setAggrHashId(first, al); }
+	if (mode14 || mode17) KSI_RFC3161_setAggregationTime(sig->rfc3161, tm);
+	else KSI_AggregationHashChain_setAggregationTime(first, tm);         /* frees nothing: ownership bookkeeping is not the point here */
+	if (mode14) {
+		KSI_Integer *a2 = NULL;
+		KSI_Integer_new(ctx, (KSI_uint64_t)alg, &al); KSI_RFC3161_setSigAttrAlgo(sig->rfc3161, al);
+		KSI_Integer_new(ctx, 1, &a2); KSI_RFC3161_setTstInfoAlgo(sig->rfc3161, a2);
+	} else if (mode15) { KSI_Integer_new(ctx, (KSI_uint64_t)alg, &al); KSI_AggregationHashChain_setAggrHashId(first, al); }
 	else {
 		if (KSI_DataHash_fromDigest(ctx, alg, dig, spec_hashalg_len(alg), &h) != KSI_OK) return 0;
 		KSI_AggregationHashChain_setInputHash(first, h);
@@ -37,12 +45,14 @@ static int check(int alg, unsigned long long t) {
 	KSI_VerificationContext_init(&info, ctx); info.signature = sig;
 	memset(&r, 0, sizeof(r)); r.resultCode = KSI_VER_RES_NA; r.errorCode = KSI_VER_ERR_GEN_2;
 	res = mode15 ? KSI_VerificationRule_AggregationChainHashAlgorithmVerification(&info, &r)
+	    : mode14 ? KSI_VerificationRule_Rfc3161RecordHashAlgorithmVerification(&info, &r)
+	    : mode17 ? KSI_VerificationRule_Rfc3161RecordOutputHashAlgorithmVerification(&info, &r)
 	             : KSI_VerificationRule_AggregationChainInputHashAlgorithmVerification(&info, &r);
 	st = spec_hashalg_status_at(alg, time_ll(t));
-	v = spec_alg_rule_fails(st) ? SPEC_VFAIL(SPEC_VERR_INT(mode15 ? 15 : 13)) : SPEC_VOK;
+	v = spec_alg_rule_fails(st) ? SPEC_VFAIL(SPEC_VERR_INT(mode15 ? 15 : mode14 ? 14 : mode17 ? 17 : 13)) : SPEC_VOK;
 	bad = !spec_outcome_matches(v, res == KSI_OK, (int)r.resultCode, (int)r.errorCode);
 	if (bad) printf("%s: algorithm id %d, aggregation time %llu (0x%llx): real rule status=0x%x result=%d error=0x%x; reference: algorithm status at that time = %d (1 deprecated, 2 obsolete) => %s\n",
-			mode15 ? "INT-15" : "INT-13", alg, t, t, res, (int)r.resultCode, (int)r.errorCode, st, v.kind == SPEC_V_FAIL ? "FAIL expected" : "OK expected");
+			mode15 ? "INT-15" : mode14 ? "INT-14" : mode17 ? "INT-17" : "INT-13", alg, t, t, res, (int)r.resultCode, (int)r.errorCode, st, v.kind == SPEC_V_FAIL ? "FAIL expected" : "OK expected");
 	info.signature = NULL;
 	return bad;
 }
@@ -53,11 +63,14 @@ int main(int argc, char **argv) {
 	int res, alg; size_t k; unsigned long long hint_t; int hint_alg;
 	rp_init(argc, argv);
 	mode15 = strcmp(rp_str("mode", "int13"), "int15") == 0;
+	mode14 = strcmp(rp_str("mode", "int13"), "int14") == 0;
+	mode17 = strcmp(rp_str("mode", "int13"), "int17") == 0;
 	hint_t = (unsigned long long)rp_ll("t", 0x8000000000000000LL); hint_alg = (int)rp_ll("alg", 0);
 	KSI_CTX_new(&ctx);
-	res = KSI_Signature_fromFileWithPolicy(ctx, REPO_SRC "/../../test/resource/tlv/ok-sig-2014-04-30.1-no-cal-hashchain.ksig", KSI_VERIFICATION_POLICY_EMPTY, NULL, &sig);
+	res = KSI_Signature_fromFileWithPolicy(ctx, (mode14 || mode17) ? REPO_SRC "/../../test/resource/tlv/ok-legacy-sig-2014-06.gtts.ksig"
+			: REPO_SRC "/../../test/resource/tlv/ok-sig-2014-04-30.1-no-cal-hashchain.ksig", KSI_VERIFICATION_POLICY_EMPTY, NULL, &sig);
 	if (res != KSI_OK || sig == NULL) { printf("cannot parse the sample signature: 0x%x\n", res); return 2; }
-	if (sig->calendarChain != NULL) { printf("sample has a calendar chain\n"); return 2; }
+	if ((mode14 || mode17) ? sig->rfc3161 == NULL : sig->calendarChain != NULL) { printf("sample signature has not the expected components\n"); return 2; }
 	if (KSI_AggregationHashChainList_elementAt(sig->aggregationChainList, 0, &first) != KSI_OK || first == NULL) return 2;
 	if (hint_alg >= 0 && hint_alg < 12 && check(hint_alg, hint_t)) RP_FAIL("algorithm-lifetime rule disagrees with the documented table");
 	for (alg = 0; alg < 12; alg++) for (k = 0; k < sizeof(T) / sizeof(T[0]); k++)
